@@ -6,6 +6,55 @@ from .c17 import all_mir_calls, _only_cast_inside
 LEVEL = 'other'
 
 
+def _mentions(e, var):
+    from ..thir import walk
+    return any(n.get('k') in ('Var', 'Upvar') and n.get('var') == var for n in walk(e))
+
+
+def _assigned_before_read(body, var):
+    """the first thing every invocation does with the captured slot is an unconditional assignment (a top-level statement of the closure
+    body whose right-hand side does not mention the slot): whatever is read later in the same invocation was written by it"""
+    root = body.get('root')
+    while isinstance(root, dict) and root.get('k') in ('Scope',):
+        root = root.get('e')
+    if not isinstance(root, dict) or root.get('k') != 'Block':
+        return False
+    items = [st.get('e') if st.get('k') == 'Expr' else st for st in root.get('stmts', [])] + ([root['expr']] if root.get('expr') is not None else [])
+    for it_ in items:
+        if not _mentions(it_, var):
+            continue
+        x = peel(it_) if isinstance(it_, dict) and 'ty' in it_ else it_
+        if isinstance(x, dict) and x.get('k') == 'Assign':
+            l = x['l']
+            while l.get('k') == 'Deref':
+                l = l['e']
+            return l.get('k') in ('Var', 'Upvar') and l.get('var') == var and not _mentions(x['r'], var)
+        return False
+    return False
+
+
+def _write_only(lib, closure_def, var):
+    body = lib.bodies.get(closure_def) if closure_def else None
+    if body is None or not var:
+        return False
+    if _assigned_before_read(body, var):
+        return True
+    uses = 0
+    for b in lib.with_closures(body):
+        for n, anc in walk_anc(b.get('root')):
+            if n.get('k') in ('Var', 'Upvar') and n.get('var') == var:
+                uses += 1
+                if not anc:
+                    return False
+                # allowed position: the left-hand side of a plain assignment, possibly through the capture's own dereference
+                chain = list(anc)
+                while chain and chain[-1][0].get('k') in ('Deref',):
+                    chain.pop()
+                if not chain or chain[-1][0].get('k') != 'Assign' or chain[-1][1] != 'l':
+                    return False
+    return uses > 0
+
+
 def run(chk):
     lib = load(chk)
     f = lib.f
@@ -65,6 +114,8 @@ def run(chk):
                     continue
                 n_clo += 1
                 muts = [peel(u).get('var') or peel(u).get('k') for u in a.get('upvars', []) if u.get('k') == 'Borrow' and 'Mut' in u.get('bk', '')]
+                # a captured slot that the closure only ever assigns to (never reads) carries nothing from one element to the next
+                muts = [v for v in muts if not _write_only(lib, a.get('def'), v)]
                 name = strip_generics(cal.get('resolved') or cal['path']).split('::')[-1]
                 fn = strip_generics(d)
                 chk.ob('R13.4', "%s: the closure passed to ndarray `%s` carries no mutable state between elements (mutably captured: %s)" % (fn, name, muts),
